@@ -93,7 +93,10 @@ def canon_links(ws, d, rel2x):
             out.append([-3, -3])      # something that is not a link
             continue
         name = rel2x.get(str(p.relative_to(d)), -1)
-        target = os.readlink(p)
+        try:
+            target = os.readlink(p)
+        except OSError:       # vanished under our feet (only possible if somebody is changing the index right now)
+            continue
         if not os.path.isabs(target):
             target = os.path.join(os.path.dirname(p), target)
         target = os.path.normpath(target)
